@@ -242,28 +242,66 @@ def confirm_against_program(ctx):
     from . import common
     checked = unfaithful = 0
     pending = []
-    for p in ctx.problems:
-        if p.kind != 'oracle' or p.case is None or not hasattr(p.case, 'argv'):
-            continue
-        if (p.signature or '').startswith(('nondeterministic', 'depth-order-dependent')):
-            continue        # a verdict about runs that differ from one another: one more run proves nothing either way (C05 repeats it across processes itself)
+    seen_paths = set()
+
+    def path_of(p):
+        return tuple(getattr(p.case, 'path', None) or ())
+
+    def replay(p):
+        """True: reproduced by the program, False: not reproduced (turned into a broken correspondence), None: nothing to replay"""
+        nonlocal checked, unfaithful
         cs = [p.case]
         pair = getattr(p.case, 'meta', {}).get('pair') if hasattr(p.case, 'meta') else None
         if pair is not None and hasattr(pair, 'argv'):
             cs.append(pair)
         cs += [c for c in p.related if hasattr(c, 'argv') and c is not p.case][:40]
-        if checked >= 8:
-            pending.append(p)
-            continue
         verdicts = [common.reproduced_by_program(ctx, c, ctx.obs.get(c.id)) for c in cs]
         verdicts = [v for v in verdicts if v is not None]
         if not verdicts:
-            continue
+            return None
         checked += 1
+        seen_paths.add(path_of(p))
         if not all(verdicts):
             unfaithful += 1
             p.kind = 'corr'
             p.what = 'the program run on its own does not reproduce what the in-process driver observed for this case; the verdict was: ' + p.what
+            return False
+        return True
+
+    for p in ctx.problems:
+        if p.kind != 'oracle' or p.case is None or not hasattr(p.case, 'argv'):
+            continue
+        if (p.signature or '').startswith(('nondeterministic', 'depth-order-dependent')):
+            continue        # a verdict about runs that differ from one another: one more run proves nothing either way (C05 repeats it across processes itself)
+        if checked >= 8:
+            pending.append(p)
+            continue
+        replay(p)
+    # The first verdicts may all be artefacts of the driver (a hook that bypasses the changed code) while a later one, about another
+    # command, is genuine (seed R3-r1: every `--no-database` report failed inside the driver only, `stats --no-database` fails in the
+    # program too).  Before the rest is dismissed, one verdict per command path not replayed yet is replayed as well.
+    if checked >= 3 and unfaithful == checked and pending:
+        extra, confirmed = 0, []
+        for p in list(pending):
+            if extra >= 12:
+                break
+            if path_of(p) in seen_paths:
+                continue
+            extra += 1
+            if replay(p) is True:
+                confirmed.append(p)
+        if confirmed:
+            # something was reproduced: further verdicts about the same command paths are judged one by one
+            paths = set(path_of(p) for p in confirmed)
+            for p in [q for q in pending if q.kind == 'oracle' and q not in confirmed and path_of(q) in paths][:24]:
+                if replay(p) is True:
+                    confirmed.append(p)
+        # the driver has been shown to be no faithful observer in this run: only what the program itself reproduced stays a verdict
+        for p in pending:
+            if p.kind == 'oracle' and p not in confirmed:
+                p.kind = 'corr'
+                p.what = 'not confirmed against the program run on its own (the first %d verdicts of this run were not reproduced); the verdict was: %s' % (unfaithful, p.what)
+        pending = []
     if checked >= 3 and unfaithful == checked:
         for p in pending:
             p.kind = 'corr'
